@@ -1,6 +1,7 @@
 (* Check_C02.v — case format and per-case verdicts for the C02 correspondence run.
    One case = one requirement structure (with the scheme orders the implementation really used), one
-   per-scheme outcome table, one authorizer behaviour, one request (parameters valid or not), and three
+   per-scheme outcome table, one authorizer behaviour, one request (parameters valid or not, some response format
+   acceptable to its Accept header or none), and three
    observations of the real code on it:
      d_*  RouteAuthenticators.Authenticate called directly,
      b_*  Context.Authorize (the entry point of generated servers): result + principal/scopes left in the request context,
@@ -70,9 +71,10 @@ Definition restore_msg (head : bool) (out : oracle) (alts : list alt) (az : auth
   else tr.
 
 (* one request of a history: which operation, the credentials the request carries per scheme, parameters valid,
+   some response format acceptable to the request (its Accept header against the produces of the operation),
    observed through Context.Authorize (via = true) or the untyped handler, HEAD or not; what the shared instance
    answered and what a fresh instance answers to the same single request *)
-Record hcall := mk_hcall { hc_op : nat; hc_creds : list (nat * nat); hc_bind : bool; hc_via : bool; hc_head : bool;
+Record hcall := mk_hcall { hc_op : nat; hc_creds : list (nat * nat); hc_bind : bool; hc_fmt : bool; hc_via : bool; hc_head : bool;
                            hc_tr : list event; hc_res : authz; hc_ftr : list event; hc_fres : authz }.
 
 (* error values of the harness's validation callbacks: unknown credential / insufficient scope, per scheme *)
@@ -80,7 +82,7 @@ Definition h_unk (s : nat) : err := if Nat.eqb s 3 then EPlain 43 else EStatus 4
 Definition h_insuf (s : nat) : err := EStatus 403 (50 + s).
 
 Inductive case :=
-| CSec (alts : list alt) (outs : list (nat * outcome)) (az : option (list (option principal * err))) (bind_ok head : bool)
+| CSec (alts : list alt) (outs : list (nat * outcome)) (az : option (list (option principal * err))) (bind_ok fmt_ok head : bool)
        (d_tr : list event) (d_applies : bool) (d_usr : option principal) (d_err : option err) (d_route : option nat)
        (b_tr : list event) (b_res : authz)
        (a_tr : list event)
@@ -96,19 +98,19 @@ Definition hist_call_check (ops : list (list alt)) (scoped : list nat) (grants :
     (trace_eqb (hc_tr c) bt && authz_eqb (hc_res c) bres && trace_eqb (hc_ftr c) bt && authz_eqb (hc_fres c) bres,
      authorize_ok out alts azf (hc_tr c) (hc_res c) && authorize_ok out alts azf (hc_ftr c) (hc_fres c))
   else
-    let at_ := map (head_view (hc_head c)) (map erase (secure_handler out alts azf (hc_bind c))) in
+    let at_ := map (head_view (hc_head c)) (map erase (secure_handler_fmt out alts azf (hc_bind c) (hc_fmt c))) in
     (trace_eqb (hc_tr c) at_ && trace_eqb (hc_ftr c) at_,
-     sec_ok out alts azf (hc_bind c) false (restore_msg (hc_head c) out alts azf (hc_tr c)) &&
-     sec_ok out alts azf (hc_bind c) false (restore_msg (hc_head c) out alts azf (hc_ftr c))).
+     sec_ok_fmt out alts azf (hc_bind c) (hc_fmt c) false (restore_msg (hc_head c) out alts azf (hc_tr c)) &&
+     sec_ok_fmt out alts azf (hc_bind c) (hc_fmt c) false (restore_msg (hc_head c) out alts azf (hc_ftr c))).
 
 Definition check_case (c : case) : N :=
   match c with
-  | CSec alts outs az bind_ok head d_tr d_applies d_usr d_err d_route b_tr b_res a_tr =>
+  | CSec alts outs az bind_ok fmt_ok head d_tr d_applies d_usr d_err d_route b_tr b_res a_tr =>
     let out := oracle_of outs in
     let azf := authorizer_of az in
     let '(mt, mres) := auth_alts out alts in
     let '(bt, bres) := authorize out alts azf in
-    let at_ := map (head_view head) (map erase (secure_handler out alts azf bind_ok)) in
+    let at_ := map (head_view head) (map erase (secure_handler_fmt out alts azf bind_ok fmt_ok)) in
     let granted := d_applies && negb (is_some d_err) in
     let corr :=
       (* direct *)
@@ -126,7 +128,7 @@ Definition check_case (c : case) : N :=
     let prop :=
       authenticate_ok out alts d_tr d_applies d_usr d_err &&
       authorize_ok out alts azf b_tr b_res &&
-      sec_ok out alts azf bind_ok false (restore_msg head out alts azf a_tr) in
+      sec_ok_fmt out alts azf bind_ok fmt_ok false (restore_msg head out alts azf a_tr) in
     verdict corr prop
   | CHist ops scoped grants az calls =>
     let azf := authorizer_of az in
